@@ -66,3 +66,34 @@ func VerifC06Iterate(data []byte) (items []VerifC06Item, ctorErr error, walkErr 
 		items = append(items, it)
 	}
 }
+
+// VerifC06Containers copies out the containers of b (key order) in the shape
+// of VerifC06Item: Len = number of array values / bitmap words / runs.
+func VerifC06Containers(b *Bitmap) []VerifC06Item {
+	var out []VerifC06Item
+	citer, _ := b.Containers.Iterator(0)
+	for citer.Next() {
+		k, c := citer.Value()
+		it := VerifC06Item{Key: k, Typ: c.typ(), N: int(c.N())}
+		switch c.typ() {
+		case containerArray:
+			a := c.array()
+			it.Len = len(a)
+			it.Data = append([]uint16(nil), a...)
+		case containerBitmap:
+			bm := c.bitmap()
+			it.Len = len(bm)
+			for _, w := range bm {
+				it.Data = append(it.Data, uint16(w), uint16(w>>16), uint16(w>>32), uint16(w>>48))
+			}
+		case containerRun:
+			rs := c.runs()
+			it.Len = len(rs)
+			for _, r := range rs {
+				it.Data = append(it.Data, r.start, r.last)
+			}
+		}
+		out = append(out, it)
+	}
+	return out
+}
